@@ -36,7 +36,8 @@ def build_log(case):
     msgs = []
     pre_shown = case['prelude_shown']
     conns = [1, 2] if two else [1]
-    for c in conns:
+    late = case.get('late_second')      # the second connection starts later: its first lines come with its first message
+    for c in conns[:1] if late else conns:
         msgs.append((_m(t0, True, 'wl_display', 1, 'get_registry', [['new', 'wl_registry', 2]], tag(c)), False))
         msgs.append((_m(t0, True, 'wl_registry', 2, 'bind', [['int', 1], ['str', 'zz_s'], ['int', 1], ['new', None, 3]], tag(c)), pre_shown))
         msgs.append((_m(t0, True, 'wl_registry', 2, 'bind', [['int', 2], ['str', 'zz_h'], ['int', 1], ['new', None, 4]], tag(c)), False))
@@ -49,6 +50,11 @@ def build_log(case):
     for i, (g, vis) in enumerate(zip(case['gaps'], case['visible'])):
         t += g
         c = conns[i % len(conns)]
+        if late and c == 2:
+            late = False
+            msgs.append((_m(t, True, 'wl_display', 1, 'get_registry', [['new', 'wl_registry', 2]], tag(c)), False))
+            msgs.append((_m(t, True, 'wl_registry', 2, 'bind', [['int', 1], ['str', 'zz_s'], ['int', 1], ['new', None, 3]], tag(c)), pre_shown))
+            msgs.append((_m(t, True, 'wl_registry', 2, 'bind', [['int', 2], ['str', 'zz_h'], ['int', 1], ['new', None, 4]], tag(c)), False))
         if vis:
             msgs.append((_m(t, True, 'zz_s', 3, 'poke', [['int', i]], tag(c)), True))
         else:
@@ -205,6 +211,26 @@ def gen_cases(tier):
                            'view': view, 'conns': 2, 'prelude_shown': False}
                     yield {'gaps': list(gaps), 'visible': list(vis), 'shift': shift, 'dialect': 'old',
                            'view': view, 'conns': 1, 'prelude_shown': True}
+                if shift == shifts[0]:
+                    # the second connection opens only when its first message arrives: a notice between two shown messages
+                    yield {'gaps': list(gaps), 'visible': list(vis), 'shift': shift, 'dialect': 'cur',
+                           'view': 'live', 'conns': 2, 'prelude_shown': False, 'late_second': True, 'then_list': True}
+
+
+def gen_shift_sweep(tier):
+    """Every constant shift of a dense range: a gap of exactly one second (no separator) followed by a gap of one second and
+    a microsecond (separator), at every absolute time of the range - the conversion of the printed milliseconds must not
+    lose or gain a microsecond anywhere."""
+    n_us, n_ms = (3000, 3000) if tier == 'quick' else (40000, 60000)
+    bases = [0, 16611000000] if tier == 'quick' else [0, 16611000000, 4294967000000, 999999000]
+    for dialect in ('mid', 'oldc'):
+        for base in bases:
+            for k in range(n_us):
+                yield {'gaps': [1000000, 1000001], 'visible': [True, True], 'shift': base + k, 'dialect': dialect,
+                       'view': 'live' if k % 2 else 'list', 'conns': 1, 'prelude_shown': True, 'shift_origin': True}
+        for k in range(n_ms):
+            yield {'gaps': [1000000, 1000001], 'visible': [True, True], 'shift': 334 + k * 1000, 'dialect': dialect,
+                   'view': 'list' if k % 2 else 'live', 'conns': 1, 'prelude_shown': True, 'shift_origin': True}
 
 
 def run(run, tier, seed):
@@ -214,6 +240,10 @@ def run(run, tier, seed):
                        bound={'messages': 3 if tier == 'quick' else 4, 'gaps_us': GAPS_US,
                               'shifts': len(SHIFTS_QUICK if tier == 'quick' else SHIFTS_THOROUGH)})
     run.add_part('logs', res)
+    res2 = explore.prod(lambda: gen_shift_sweep(tier), evaluate, seed=seed,
+                        bound={'consecutive_microsecond_shifts': 3000 if tier == 'quick' else 40000,
+                               'consecutive_millisecond_shifts': 3000 if tier == 'quick' else 60000})
+    run.add_part('shift_sweep', res2)
     run.rule = ('all logs of n messages with consecutive gaps from the lattice %s us x visibility pattern x time shift x '
                 'decimal mark x live/list x 1-2 connections; non-trivial = a gap within 1 us of the threshold and a '
                 'hidden message' % GAPS_US)
